@@ -4,6 +4,8 @@ import z3
 from pyvc.contracts import Contract
 from pyvc.values import *   # pylint: disable=wildcard-import
 
+_s9 = importlib.util.spec_from_file_location('c09', os.path.join(os.path.dirname(__file__), 'C09.py'))
+_c09 = importlib.util.module_from_spec(_s9); _s9.loader.exec_module(_c09)
 _spec = importlib.util.spec_from_file_location('rangeiter_common', os.path.join(os.path.dirname(__file__), 'rangeiter_common.py'))
 rangeiter_common = importlib.util.module_from_spec(_spec); _spec.loader.exec_module(rangeiter_common)
 ITER = 'ml_metrics/_src/utils/iter_utils.py'
@@ -23,6 +25,8 @@ def _setup_iter(it, env):
 
 
 def register(R):
+  _c09.register(R)          # shard / from_state (a restored source must keep its error-skipping flag) + spec functions
+  R.bounded_checks.pop('C09', None)
   R.opaque_item_error = 'ValueError'
   @R.spec
   def fails(it, a, k):
@@ -61,7 +65,7 @@ def register(R):
           'forall(lambda i: rank(i) + ite(fails(it, i), 0, 1) <= rank(it.pos) and rank(pos0) <= rank(i), pos0, it.pos)',
           'forall(lambda i: implies(not fails(it, i), out[rank(i) - rank(pos0)] is it.src[i]), pos0, it.pos)'])},
       bounded='bounded_ignore_error'))
-  rangeiter_common.register(R, [P, 'C09'], 'bounded_range_iterator_faults')
+  # (_RangeIterator.__next__ is registered by the C09 contracts for both properties)
 
   R.bounded_checks[P] = [
       ('bounded_ignore_error', 'iter_ignore_error / processed_with_inputs on fault maps over <=5 elements'),
